@@ -104,6 +104,10 @@ class Check:
         """sanitizer / tool runs beyond the sharded workload; returns (stats, violations, notes)"""
         return collections.Counter(), [], {}
 
+    def extra_cfg_plans(self):
+        """[(driver cfg, descs)] to run after the main pass with self.cfg switched (other feature sets)"""
+        return []
+
     def finalize(self, agg):
         """last word on the aggregated result (cross-case oracles); may add violations"""
         return
@@ -260,6 +264,24 @@ def run_check(chk, replay=None):
                 for a in pool.imap_unordered(_work, shards):
                     agg.merge(a)
         if replay is None:
+            main_cfg = chk.cfg
+            for xcfg, xdescs in chk.extra_cfg_plans():
+                chk.cfg = xcfg
+                try:
+                    _BINARY = runner.build_driver(xcfg)
+                except Inconclusive as e:
+                    agg.inconclusive.append("cfg %s: %s" % (xcfg, str(e)[:400]))
+                    chk.cfg = main_cfg
+                    continue
+                xper = max(1, min(chk.cases_per_shard, (len(xdescs) + NPROC - 1) // NPROC))
+                xshards = [(1000 * (1 + ord(xcfg[0])) + i, xdescs[k:k + xper]) for i, k in enumerate(range(0, len(xdescs), xper))]
+                ctx = mp.get_context("fork")
+                with ctx.Pool(min(NPROC, max(1, len(xshards)))) as pool:
+                    for a in pool.imap_unordered(_work, xshards):
+                        agg.merge(a)
+                notes.setdefault("extra_cfgs", []).append({"cfg": xcfg, "cases": len(xdescs)})
+                chk.cfg = main_cfg
+            _BINARY = runner.build_driver(main_cfg)
             xs, xv, xn = chk.extra_runs(_BINARY)
             agg.stats.update(xs)
             for v in xv:
